@@ -3,20 +3,12 @@
    writes exactly `enc t`.  Two alphabets: structure (braces, brackets, colon, comma, semicolon, both quotes, backslash, 1, a, B and space; length <= 6) and numbers
    ([],;-12bsLBI and space, length <= 5).  Floats do not occur (no '.'), so the float oracles are irrelevant. *)
 From Coq Require Import List ZArith NArith Bool Lia.
-From GoMC Require Import Model.C04_dsyntax Model.C04_dec Gen.Decoder.
+From GoMC Require Import Model.C04_dsyntax Model.C04_dec Gen.Decoder Proofs.C04_dec.
 From GoMC Require Model.C04.
 Import ListNotations.
 Local Open Scope Z_scope.
 
-Definition nopf (_ : list Z) (_ : Z) : option Z := None.
 Definition nopfs (_ : C04.flit) : option N := None.
-Fixpoint zeqb (a b : list Z) : bool :=
-  match a, b with [], [] => true | x :: a', y :: b' => (x =? y) && zeqb a' b' | _, _ => false end.
-Lemma zeqb_eq a : forall b, zeqb a b = true -> a = b.
-Proof.
-  induction a as [|x a IH]; destruct b as [|y b]; simpl; intros H; try discriminate; [reflexivity|].
-  apply andb_true_iff in H. destruct H as [H1 H2]. apply Z.eqb_eq in H1. rewrite (IH b H2), H1. reflexivity.
-Qed.
 
 Definition agree (text : list Z) : bool :=
   match C04.parse nopfs nopfs (map Z.to_N text) with
@@ -27,26 +19,9 @@ Definition agree (text : list Z) : bool :=
   | None => true
   end.
 
-(* depth-first over every extension of the (reversed) prefix rp by up to k symbols of alpha *)
-Fixpoint check (alpha : list Z) (k : nat) (rp : list Z) : bool :=
-  agree (rev rp) && match k with O => true | S k' => forallb (fun c => check alpha k' (c :: rp)) alpha end.
-
-Lemma check_sound alpha k : forall rp, check alpha k rp = true ->
-  forall ext, (length ext <= k)%nat -> Forall (fun c => In c alpha) ext -> agree (rev rp ++ ext) = true.
-Proof.
-  induction k as [|k IH]; intros rp H ext L F; simpl in H; apply andb_true_iff in H; destruct H as [H1 H2].
-  - destruct ext; [rewrite app_nil_r; exact H1 | simpl in L; lia].
-  - destruct ext as [|c ext]; [rewrite app_nil_r; exact H1|].
-    inversion F; subst. rewrite forallb_forall in H2. specialize (H2 c H3).
-    specialize (IH (c :: rp) H2 ext ltac:(simpl in L; lia) H4). simpl in IH. rewrite <- app_assoc in IH. exact IH.
-Qed.
-
-Definition alpha1 : list Z := [123;125;91;93;58;44;59;34;39;92;49;97;66;32].
-Definition alpha2 : list Z := [91;93;44;59;45;49;50;98;115;76;66;73;32].
-
-Lemma sweep1 : check alpha1 6 [] = true.
+Lemma sweep1 : checkp agree alpha1 6 [] = true.
 Proof. vm_cast_no_check (eq_refl true). Qed.
-Lemma sweep2 : check alpha2 5 [] = true.
+Lemma sweep2 : checkp agree alpha2 5 [] = true.
 Proof. vm_cast_no_check (eq_refl true). Qed.
 
 Theorem decoder_agrees_short (text : list Z) (t : C04.tag) :
@@ -58,8 +33,8 @@ Proof.
   intros H P.
   assert (A : agree text = true).
   { destruct H as [[L F]|[L F]].
-    - exact (check_sound alpha1 6 [] sweep1 text L F).
-    - exact (check_sound alpha2 5 [] sweep2 text L F). }
+    - exact (checkp_sound agree alpha1 6 [] sweep1 text L F).
+    - exact (checkp_sound agree alpha2 5 [] sweep2 text L F). }
   unfold agree in A. rewrite P in A. destruct (decode_text nopf decoder_prog text); try discriminate A.
   f_equal. apply zeqb_eq, A.
 Qed.
